@@ -19,7 +19,7 @@ ATOM = re.compile(r"""
  | (?P<coin>Value::Coin\(\s*(?P<cn>[\d_]+)\s*\))
  | (?P<ma>Value::Multiasset\(\s*(?P<mn>[\d_]+)\s*,)
  | (?P<policy>"(?P<pol>[0-9a-fA-F]{56})"\s*\.parse\(\))
- | (?P<asset>Bytes::from\(\s*hex::decode\(\s*"(?P<an>[0-9a-fA-F]*)"\s*,?\s*\)\s*\.unwrap\(\)\s*,?\s*\)\s*,\s*(?P<aq>[\d_]+)\s*,)
+ | (?P<asset>Bytes::from\(\s*hex::decode\(\s*"(?P<an>[0-9a-fA-F]*)"\s*,?\s*\)\s*\.unwrap\(\)\s*,?\s*\)\s*,\s*(?P<aq>[\d_]+)\s*[,)])
  | (?P<dhash>hex::decode\(\s*"(?P<dh>[0-9a-fA-F]{64})"\s*,?\s*\)\s*\.unwrap\(\)\s*\.as_slice\(\)\s*\.into\(\))
  | (?P<pdcbor>let\s+plutus_data_cbor[^=]*=\s*hex::decode\(\s*"(?P<pdc>[0-9a-fA-F]+)"\s*,?\s*\))
  | (?P<dbytes>let\s+datum_bytes\s*=\s*cbor_to_bytes\(\s*"(?P<dbh>[0-9a-fA-F]+)"\s*\))
